@@ -403,11 +403,11 @@ theorem condenseStatic_isotope (a c : Annotation) (L : Option (List Mod)) (h : c
 /-! ### the label shift depends on the counts only, and is additive in them -/
 
 /-- one relabelling step on a count function -/
-def relabelG (g : List Char → ℚ) (el lab : List Char) : List Char → ℚ :=
+def relabelG {K : Type} [DecidableEq K] (g : K → ℚ) (el lab : K) : K → ℚ :=
   if el = lab then g else fun x => if x = el then 0 else g x + (if x = lab then g el else 0)
 
-/-- the label shift of a count function -/
-def shiftG (em : List Char → ℚ) : (List Char → ℚ) → LabelMap → ℚ
+/-- the label shift of a count function (generic in the key type: text keys here, packed keys in `Model/Chem.lean`) -/
+def shiftG {K : Type} [DecidableEq K] (em : K → ℚ) : (K → ℚ) → List (K × K) → ℚ
   | _, [] => 0
   | g, (el, lab) :: r => g el * (em lab - em el) + shiftG em (relabelG g el lab) r
 
@@ -435,7 +435,7 @@ theorem labelShift_eq_shiftG (em : List Char → ℚ) (lm : LabelMap) (c : Comp)
     obtain ⟨el, lab⟩ := p
     simp only [labelShift, shiftG, ih, compGet_relabel1_G]
 
-theorem relabelG_add (g h : List Char → ℚ) (el lab : List Char) :
+theorem relabelG_add {K : Type} [DecidableEq K] (g h : K → ℚ) (el lab : K) :
     relabelG (fun x => g x + h x) el lab = fun x => relabelG g el lab x + relabelG h el lab x := by
   unfold relabelG
   by_cases he : el = lab
@@ -450,7 +450,7 @@ theorem relabelG_add (g h : List Char → ℚ) (el lab : List Char) :
         simp only [if_neg this, if_true]; ring
       · simp [hx, hl]
 
-theorem shiftG_add (em : List Char → ℚ) (lm : LabelMap) (g h : List Char → ℚ) :
+theorem shiftG_add {K : Type} [DecidableEq K] (em : K → ℚ) (lm : List (K × K)) (g h : K → ℚ) :
     shiftG em (fun x => g x + h x) lm = shiftG em g lm + shiftG em h lm := by
   induction lm generalizing g h with
   | nil => simp [shiftG]
@@ -458,7 +458,7 @@ theorem shiftG_add (em : List Char → ℚ) (lm : LabelMap) (g h : List Char →
     obtain ⟨el, lab⟩ := p
     simp only [shiftG, relabelG_add, ih]; ring
 
-theorem shiftG_zero (em : List Char → ℚ) (lm : LabelMap) : shiftG em (fun _ => 0) lm = 0 := by
+theorem shiftG_zero {K : Type} [DecidableEq K] (em : K → ℚ) (lm : List (K × K)) : shiftG em (fun _ => 0) lm = 0 := by
   induction lm with
   | nil => rfl
   | cons p lm ih =>
